@@ -26,6 +26,13 @@ CLAIMED.update({
     'C03': ('For every (type, attribute, entry point) the target value is symbolic over +-2^40: accepted iff in the documented '
             'range, a rejection leaves the original object untouched (identity of every stored value), accepted calls change '
             'only that attribute; ill-typed menu, sysex containers, del/type/unknown names and assignment histories up to k.', '4/C03'),
+    'C04': ('Bounded direct: every byte string up to length 3 (thorough 4) over the full alphabet through parse_all - no '
+            'exception, every message well-formed, each defined real-time byte exactly one message in order, other messages a '
+            'subsequence of the input. Inductive: from every tokenizer state satisfying the representation invariant one '
+            'arbitrary byte keeps the invariant and emits only buffer+byte, which extends the claim to streams of any length.', '4/C04'),
+    'C05': ('All chunkings/feeding styles/retrieval interleavings of every stream up to length 2 (3 without retrieval ops) agree with '
+            'parse_all; inductive lemmas from arbitrary parser states (feed is a monoid action; retrieval commutes with feeding and is '
+            'FIFO; pending/get_message/iteration contract) carry it to streams of any length; ParserQueue single-threaded.', '4/C05'),
 })
 
 PENDING = {}     # id -> reason (not claimed)
